@@ -307,19 +307,16 @@ func c10LawRepl(c c10Case, cls string, after []string) c10Verdict {
 }
 
 // c10LawReplEncodable: what a replacement writes is a well-formed value — the documents the filter returns
-// can be encoded. The one listed shape (finding C10/replacement-keeps-target-tag-not-encodable): a scalar
-// target keeps its tag (!!null, !!int, !!bool, !!float) and receives a text that is not of that type.
+// can be encoded the way ResMap.AsYaml encodes them. (The former listed shape — a scalar target keeping its
+// !!null / !!int tag under a text of another type, C10/replacement-keeps-target-tag-not-encodable — is
+// repaired: setFieldValue makes such a node a string; a reappearance is an unlisted violation.)
 var c10KeptTagRe = regexp.MustCompile("cannot decode !!\\w+ `.*` as a !!(null|int|bool|float)")
 
 func c10LawReplEncodable(c c10Case, noEnc string) c10Verdict {
 	if noEnc == "" {
 		return c10Verdict{}
 	}
-	class := "C10/replacement-output-not-encodable"
-	if c10KeptTagRe.MatchString(noEnc) {
-		class = "C10/replacement-keeps-target-tag-not-encodable"
-	}
-	return c10Verdict{true, class, "written_value_well_formed", "the replacement succeeded but its result cannot be encoded: " + noEnc}
+	return c10Verdict{true, "C10/replacement-output-not-encodable", "written_value_well_formed", "the replacement succeeded but its result cannot be encoded: " + noEnc}
 }
 
 func c10LawSplit(c c10Case, got []string) c10Verdict {
